@@ -98,7 +98,10 @@ def discharge_all(session, obligations, timeout_ms, inputs, quick_only=False, on
                 if mv is not None and mm is not None:
                     try:
                         model = dict(model or {})
-                        model.update(mv(mm))
+                        try:
+                            model.update(mv(mm, ob))
+                        except TypeError:
+                            model.update(mv(mm))
                     except Exception as e:  # pragma: no cover
                         model["_model_values_error"] = f"{type(e).__name__}: {e}"
                 detail = det or f"path decisions {list(ob.path)}"
